@@ -28,8 +28,9 @@ def sh(cmd: str, cwd: str | None = None, timeout: int = 1800) -> tuple[int, str]
 
 def confirm(pid: str, x: str) -> int:
     wt = f"/tmp/seed/{pid}"
-    patch = f"{wt}/_seed/patch_{x}.diff"
-    demo = f"{wt}/_seed/demo_{x}.py"
+    sd = "_seed" if x in ("A", "B") else "_seed2"  # second round (C, D): agents were told to avoid A and B
+    patch = f"{wt}/{sd}/patch_{x}.diff"
+    demo = f"{wt}/{sd}/demo_{x}.py"
     env = f"PYTHONPATH={wt}/src:{wt} PYTHONDONTWRITEBYTECODE=1"
     if not Path(patch).exists() or not Path(demo).exists():
         print("missing patch or demo")
@@ -61,12 +62,13 @@ def confirm(pid: str, x: str) -> int:
     dst.mkdir(parents=True, exist_ok=True)
     shutil.copy(patch, dst / "patch.diff")
     shutil.copy(demo, dst / "demo.py")
-    notes = Path(f"{wt}/_seed/notes.md")
+    notes = Path(f"{wt}/{sd}/notes.md")
     if notes.exists():
         shutil.copy(notes, dst / "agent_notes.md")
     meta = {"property": pid, "variant": x, "source": "independent sub-agent given only the property text and a scratch worktree",
             "diffstat": diffstat.strip(), "confirmed_by_me": ran,
-            "needs_to_manifest": "see agent_notes.md", "detected_by": {}}
+            "needs_to_manifest": "see agent_notes.md", "detected_by": {},
+            "base_commit": sh(f"git -C {wt} rev-parse --short HEAD")[1].strip()}
     (dst / "meta.json").write_text(json.dumps(meta, indent=1))
     return 0
 
